@@ -3,8 +3,8 @@ use std::{collections::HashSet, rc::Rc, vec};
 use crate::{
     cfg::{Cfg, CfgNode, Function, RegisterSet},
     parser::{
-        HasIdentity, InstructionProperties, JumpLinkType, LabelString, ParserNode, Register, Token, TokenType,
-        With,
+        HasIdentity, InstructionProperties, JumpLinkType, LabelString, ParserNode, Register, Token,
+        TokenType, With,
     },
     passes::{CfgError, DiagnosticLocation, GenerationPass},
 };
